@@ -34,10 +34,10 @@
 (*     lists neither it nor the wildcard): flags SHOULD be set: "keep" or   *)
 (*     "drop".  STORE is held to the property: exactly the named PERMITTED *)
 (*     flags are replaced / added / removed.                               *)
-(* The constants Lat and AppendKw say which resolutions are enabled, so    *)
-(* that the full nondeterministic model (graph, all resolutions) and the   *)
-(* deterministic sub-model a given server exhibits (simulation) are the    *)
-(* same text.                                                              *)
+(* The constants LatOor, LatRec and AppendKw say which resolutions of L1,  *)
+(* L2 and L3 are enabled, so that the full nondeterministic model (graph,  *)
+(* all resolutions) and the deterministic sub-model a given server         *)
+(* exhibits (simulation) are the same text.                                *)
 (*                                                                         *)
 (* A sequence set is a sequence of elements; an element is <<x>> (one      *)
 (* number) or <<x, y>> (the range x:y); the number 0 stands for the star.  *)
@@ -47,7 +47,8 @@ EXTENDS Naturals, Sequences, FiniteSets, TLC
 
 CONSTANTS
   KwPermitted,  \* BOOLEAN: PERMANENTFLAGS of both mailboxes admits the keyword "K"
-  Lat,          \* subset of {"lenient", "strict"}        (L1, L2)
+  LatOor,       \* subset of {"lenient", "strict"}        (L1)
+  LatRec,       \* subset of {"lenient", "strict"}        (L2)
   AppendKw,     \* subset of {"keep", "drop"}             (L3)
   Inits,        \* subset of {"std", "empty"}: initial contents of INBOX
   MaxCmds,      \* programs of at most this many commands
@@ -158,15 +159,21 @@ Count == ncmd < MaxCmds /\ ncmd' = ncmd + 1
 Turn(k) == /\ (TwoLevel => turn = k)
            /\ turn' = IF TwoLevel THEN "pick" ELSE turn
 
-Refused(cmd) ==
-  /\ "strict" \in Lat
-  /\ last' = [NoRes EXCEPT !.cmd = cmd, !.cond = "REFUSED", !.choice = {"strict"}]
-  /\ UNCHANGED <<mb, nextuid, nextcid, sel>>
+\* why: the latitude points present at this step, a subset of {"oor", "rec"}.
+\* Refusal is allowed if the strict resolution of one of them is enabled;
+\* going on requires the lenient resolution of all of them.
+Points(oor, rec) == (IF oor THEN {"oor"} ELSE {}) \cup (IF rec THEN {"rec"} ELSE {})
+StrictOK(why)  == ("oor" \in why /\ "strict" \in LatOor) \/ ("rec" \in why /\ "strict" \in LatRec)
+Lenient(why)   == ("oor" \in why => "lenient" \in LatOor) /\ ("rec" \in why => "lenient" \in LatRec)
+\* what the step tells about the server: which point was resolved how (a
+\* refusal with both points present does not say which one was refused)
+Ch(why) == {<<p, "lenient">> : p \in why}
+ChStrict(why) == IF Cardinality(why) = 1 THEN {<<p, "strict">> : p \in why} ELSE {<<"any", "strict">>}
 
-\* the lenient resolution is taken: allowed when there is no latitude point
-\* at this step, or when "lenient" is enabled
-Lenient(haslat) == ~haslat \/ "lenient" \in Lat
-Ch(haslat) == IF haslat THEN {"lenient"} ELSE {}
+Refused(cmd, why) ==
+  /\ StrictOK(why)
+  /\ last' = [NoRes EXCEPT !.cmd = cmd, !.cond = "REFUSED", !.choice = ChStrict(why)]
+  /\ UNCHANGED <<mb, nextuid, nextcid, sel>>
 
 View == DOMAIN mb[sel]
 FetchOf(m, A) == {[u |-> u, f |-> m[u].f] : u \in A}
@@ -177,28 +184,28 @@ FetchOf(m, A) == {[u |-> u, f |-> m[u].f] : u \in A}
 \* (UID) STORE s FLAGS|+FLAGS|-FLAGS[.SILENT] (F)
 Store(um, s, op, F, silent) ==
   /\ Turn("store") /\ Count /\ sel # "none"
-  /\ LET haslat == (~um /\ OutOfRange(s, View)) \/ "R" \in F
+  /\ LET why == Points(~um /\ OutOfRange(s, View), "R" \in F)
          A  == Addr(s, um, View, nextuid[sel])
          G  == (F \ {"R"}) \cap Permitted
          w2 == WStore(W, sel, A, op, G)
-     IN \/ /\ Lenient(haslat)
+     IN \/ /\ Lenient(why)
            /\ SetW(w2) /\ UNCHANGED <<nextcid, sel>>
            /\ last' = [NoRes EXCEPT !.cmd = "store", !.addr = A,
                          !.fetch = IF silent THEN {} ELSE FetchOf(w2.mb[sel], A),
-                         !.choice = Ch(haslat)]
-        \/ haslat /\ Refused("store")
+                         !.choice = Ch(why)]
+        \/ Refused("store", why)
 
 \* (UID) FETCH s (items): seen = some item is a body part fetched without .PEEK
 Fetch(um, s, seen) ==
   /\ Turn("fetch") /\ Count /\ sel # "none"
-  /\ LET haslat == ~um /\ OutOfRange(s, View)
+  /\ LET why == Points(~um /\ OutOfRange(s, View), FALSE)
          A  == Addr(s, um, View, nextuid[sel])
          w2 == IF seen THEN WStore(W, sel, A, "add", {"S"}) ELSE W
-     IN \/ /\ Lenient(haslat)
+     IN \/ /\ Lenient(why)
            /\ SetW(w2) /\ UNCHANGED <<nextcid, sel>>
            /\ last' = [NoRes EXCEPT !.cmd = "fetch", !.addr = A,
-                         !.fetch = FetchOf(w2.mb[sel], A), !.choice = Ch(haslat)]
-        \/ haslat /\ Refused("fetch")
+                         !.fetch = FetchOf(w2.mb[sel], A), !.choice = Ch(why)]
+        \/ Refused("fetch", why)
 
 \* EXPUNGE: exactly the messages flagged \Deleted
 Expunge ==
@@ -218,29 +225,29 @@ UidExpunge(s) ==
 \* (UID) COPY s dest: content, flags and date are duplicated
 Copy(um, s, dest) ==
   /\ Turn("copy") /\ Count /\ sel # "none"
-  /\ LET haslat == ~um /\ OutOfRange(s, View)
+  /\ LET why == Points(~um /\ OutOfRange(s, View), FALSE)
          A == Addr(s, um, View, nextuid[sel])
-     IN \/ /\ Lenient(haslat)
+     IN \/ /\ Lenient(why)
            /\ nextuid[dest] + Cardinality(A) - 1 <= MaxUid
            /\ SetW(WCopy(W, sel, A, dest)) /\ UNCHANGED <<nextcid, sel>>
            /\ last' = [NoRes EXCEPT !.cmd = "copy", !.addr = A, !.dest = dest,
                          !.pairs = {<<x, NewUid(nextuid[dest], A, x)>> : x \in A},
-                         !.choice = Ch(haslat)]
-        \/ haslat /\ Refused("copy")
+                         !.choice = Ch(why)]
+        \/ Refused("copy", why)
 
 \* (UID) MOVE s dest
 Move(um, s, dest) ==
   /\ Turn("move") /\ Count /\ sel # "none"
   /\ (Profile = "full" /\ dest = sel) => s \in SelfMoveShapes
-  /\ LET haslat == ~um /\ OutOfRange(s, View)
+  /\ LET why == Points(~um /\ OutOfRange(s, View), FALSE)
          A == Addr(s, um, View, nextuid[sel])
-     IN \/ /\ Lenient(haslat)
+     IN \/ /\ Lenient(why)
            /\ nextuid[dest] + Cardinality(A) - 1 <= MaxUid
            /\ SetW(WMove(W, sel, A, dest)) /\ UNCHANGED <<nextcid, sel>>
            /\ last' = [NoRes EXCEPT !.cmd = "move", !.addr = A, !.dest = dest,
                          !.pairs = {<<x, NewUid(nextuid[dest], A, x)>> : x \in A},
-                         !.expunged = A, !.choice = Ch(haslat)]
-        \/ haslat /\ Refused("move")
+                         !.expunged = A, !.choice = Ch(why)]
+        \/ Refused("move", why)
 
 \* APPEND dest (F) date literal: ONE new message with the given flags and date
 \* (d = 0: no date given - the server's current time); allowed in every state
@@ -249,17 +256,18 @@ AppendMsg(dest, F, d) ==
   /\ LET recent == "R" \in F
          unperm == "K" \in F /\ ~KwPermitted
          u == nextuid[dest]
-     IN \/ /\ Lenient(recent)
+     IN \/ /\ Lenient(Points(FALSE, recent))
            /\ \E kw \in (IF unperm THEN AppendKw ELSE {"na"}) :
                 LET G == ((F \ {"R"}) \cap Permitted) \cup (IF kw = "keep" THEN {"K"} ELSE {})
                 IN /\ mb' = [mb EXCEPT ![dest] =
                                [x \in (DOMAIN @) \cup {u} |-> IF x = u THEN Msg(G, d, nextcid) ELSE @[x]]]
                    /\ last' = [NoRes EXCEPT !.cmd = "append", !.dest = dest, !.pairs = {<<0, u>>},
-                                 !.choice = Ch(recent) \cup (IF unperm THEN {kw} ELSE {})]
+                                 !.choice = Ch(Points(FALSE, recent))
+                                             \cup (IF unperm THEN {<<"kw", kw>>} ELSE {})]
            /\ nextuid' = [nextuid EXCEPT ![dest] = u + 1]
            /\ nextcid' = nextcid + 1
            /\ UNCHANGED sel
-        \/ recent /\ Refused("append")
+        \/ Refused("append", Points(FALSE, recent))
 
 \* CLOSE: the \Deleted messages are removed silently, back to "authenticated"
 Close ==
